@@ -1149,12 +1149,28 @@ Qed.
    theorems above speak about                                              *)
 From Verif Require Import C15.Call.
 
-Lemma interp_call_float_ok (var : variants) k ss (cvs : list (list R)) flat i :
-  malformed cvs i None = false -> (mesh1_raises var && mesh1 i = false)%bool ->
-  degenerate (schemes_of k ss cvs) cvs = false ->
-  interp_call var k ss cvs DFloat flat i None = Ok (run k ss cvs flat i).
+Lemma interp_call_float_ok k ss (cvs : list (list R)) flat i :
+  malformed cvs i None = false -> degenerate (schemes_of k ss cvs) cvs = false ->
+  interp_call current k ss cvs DFloat flat i None = Ok (run current k ss cvs flat i).
 Proof.
-  intros Hm H1 Hd. unfold interp_call. rewrite Hm, H1. destruct k; try rewrite Hd; reflexivity.
+  intros Hm Hd. unfold interp_call. rewrite Hm. cbn [mesh1_raises current andb]. destruct k; try rewrite Hd; reflexivity.
+Qed.
+
+(* per_axis_interpolator with all-'nearest' schemes IS the nearest_interpolator call, for every value
+   dtype (integer and string included), every input and every out argument *)
+Lemma peraxis_all_nearest_call k_ss (cvs : list (list R)) dt flat i o :
+  has_linear k_ss = false ->
+  interp_call current KPerAxis k_ss cvs dt flat i o = interp_call current KNearest k_ss cvs dt flat i o.
+Proof.
+  intros Hl. unfold interp_call. destruct (malformed cvs i o); [reflexivity|].
+  cbn [mesh1_raises current andb int_raises orb schemes_of].
+  assert (Hd : degenerate k_ss cvs = false).
+  { unfold degenerate. clear -Hl. revert cvs. induction k_ss as [|s r IH]; intros [|c cvs]; try reflexivity.
+    cbn [combine existsb fst snd]. cbn [has_linear existsb] in Hl. apply orb_false_elim in Hl as [Hs Hr].
+    destruct s; [|discriminate]. cbn [orb]. apply IH. exact Hr. }
+  assert (Hrun : run current KPerAxis k_ss cvs flat i = run current KNearest k_ss cvs flat i).
+  { unfold run. cbn [int_raises current negb andb]. rewrite Hl. reflexivity. }
+  destruct dt; rewrite ?Hl, ?Hd, Hrun; reflexivity.
 Qed.
 
 (* admissible axes are never degenerate *)
@@ -1167,21 +1183,35 @@ Proof.
   destruct Hlen as [Hn|[Hs _]]; [cbn in Hn; exfalso; apply (Nat.nle_succ_diag_l 1); exact Hn | discriminate].
 Qed.
 
-(* in the repaired variant, a mesh-grid call and the point-array call on the Cartesian product
-   give the same outcome *)
-Lemma repaired_mesh_equals_points (l : list (scheme * list R * list R)) (flat : list R) :
-  let var := {| int_raises := false; mesh1_raises := false |} in
+(* a mesh-grid call and the point-array call on the Cartesian product give the same outcome *)
+Lemma mesh_call_equals_points (l : list (scheme * list R * list R)) (flat : list R) :
   let ss := map m_s l in let cvs := map m_c l in let mesh := map m_xs l in
+  has_linear ss = true ->
   degenerate ss cvs = false -> malformed cvs (IPoints (cart mesh)) None = false ->
-  interp_call var KPerAxis ss cvs DFloat flat (IMesh mesh) None
-  = interp_call var KPerAxis ss cvs DFloat flat (IPoints (cart mesh)) None.
+  interp_call current KPerAxis ss cvs DFloat flat (IMesh mesh) None
+  = interp_call current KPerAxis ss cvs DFloat flat (IPoints (cart mesh)) None.
 Proof.
-  intros var ss cvs mesh Hd Hm.
+  intros ss cvs mesh Hl Hd Hm.
   assert (Hmm : malformed cvs (IMesh mesh) None = false).
   { unfold malformed, cvs, mesh. rewrite !map_length, Nat.eqb_refl. reflexivity. }
-  unfold interp_call. rewrite Hm, Hmm. cbn [mesh1_raises var andb schemes_of]. rewrite Hd.
-  unfold run. cbn [schemes_of]. unfold ss, cvs, mesh. rewrite peraxis_mesh_pointwise. reflexivity.
+  unfold interp_call. rewrite Hm, Hmm. cbn [mesh1_raises current andb schemes_of]. rewrite Hd.
+  unfold run. cbn [int_raises current negb andb schemes_of]. rewrite Hl. cbn [negb].
+  unfold ss, cvs, mesh. rewrite peraxis_mesh_pointwise. reflexivity.
 Qed.
+
+Lemma nearest_mesh_call_equals_points (l : list (scheme * list R * list R)) dt (flat : list R) :
+  let cvs := map m_c l in let mesh := map m_xs l in
+  malformed cvs (IPoints (cart mesh)) None = false ->
+  interp_call current KNearest [] cvs dt flat (IMesh mesh) None
+  = interp_call current KNearest [] cvs dt flat (IPoints (cart mesh)) None.
+Proof.
+  intros cvs mesh Hm.
+  assert (Hmm : malformed cvs (IMesh mesh) None = false).
+  { unfold malformed, cvs, mesh. rewrite !map_length, Nat.eqb_refl. reflexivity. }
+  unfold interp_call. rewrite Hm, Hmm. cbn [mesh1_raises current andb].
+  unfold run. unfold cvs, mesh. rewrite nearest_mesh_pointwise. reflexivity.
+Qed.
+
 
 (* ------------------------------------------------------------------ *)
 (* the complete textbook reference, for EVERY real evaluation point (the Coq counterpart of the
